@@ -184,7 +184,24 @@ def toCmpAttr : SExp → Option CmpAttr
   | .atom "ord" => some .ord | .atom "partial_ord" => some .partialOrd | .atom "eq" => some .eq
   | .atom "partial_eq" => some .partialEq | .atom "hash" => some .hash | _ => none
 
+def toPlainAttr : SExp → Option Attr
+  | .list [.atom "foreign", t] => do pure (.foreign (← toToks t))
+  | .list [.atom "derive_ex", a] => do pure (.deriveEx (← toArgs a))
+  | .list [.atom "cmp", w, b] => do pure (.cmp (← toCmpAttr w) (← toHBody toCmpArgs b))
+  | .list [.atom "debug", b] => do pure (.debug (← toHBody toDebugArgs b))
+  | .list [.atom "default", b] => do pure (.dflt (← toHBody toDefaultArgs b))
+  | _ => none
+
+/-- `(at <leading ::> (<segments as written>) <the tokens of the attribute> <the serialiser's reading of it, or nil>)`:
+what the attribute *is* is decided here, by the model's `AttrPath.kind` (Props/AttrName.lean), not by the serialiser -/
 def toAttr : SExp → Option Attr
+  | .list [.atom "at", l, segs, raw, cand] => do
+    let p : AttrPath := { leading := ← toB l, segs := ← toStrs segs }
+    match p.kind with
+    | none => pure (.foreign (← toToks raw))
+    | some k => do
+      let a ← toPlainAttr cand
+      if a.kind? == some k then pure a else none
   | .list [.atom "foreign", t] => do pure (.foreign (← toToks t))
   | .list [.atom "derive_ex", a] => do pure (.deriveEx (← toArgs a))
   | .list [.atom "cmp", w, b] => do pure (.cmp (← toCmpAttr w) (← toHBody toCmpArgs b))
